@@ -41,6 +41,24 @@ ShapesTiny == [sets : SetSeqsTiny, hs : { <<H("term", 0)>>, <<H("pass", 0)>>, <<
 SetSeqsQ3 == { <<{T(2, "Y")}>>, <<{P(1, 1)}>>, <<{T(3, "Y")}>>, <<{T(1, "N")}>> }
 ShapesQ3 == [sets : SetSeqsQ3, hs : { <<H("term", 0)>>, <<H("eat", 1)>>, <<H("wrap", 0)>> }]
 
+\* C01: chains of the SHIPPED wrapping handlers (proxy_protocol "pp", throttle "thr", tee, echo,
+\* subroute) behind matchers that inspect 0, 1 or 2 units, with consuming handlers in between
+SetSeqsC01 == { <<>>, <<{T(3, "Y")}>>, <<{T(8, "Y")}>>, <<{T(516, "Y")}>> }
+ChainsC01 == { <<H("pp", 7)>>, <<H("thr", 0)>>, <<H("tee", 0)>>, <<H("tee", 0), H("eat", 2)>>,
+               <<H("thr", 0), H("tee", 0), H("echo", 0)>>, <<H("pp", 7), H("thr", 0), H("eat", 1)>>,
+               <<H("echo", 0)>>, <<H("eat", 7)>>, <<H("sub", 2)>> }
+ShapesC01 == [sets : SetSeqsC01, hs : ChainsC01]
+SubShapesC01 == [sets : { <<>>, <<{T(4, "Y")}>>, <<{T(600, "N")}>> }, hs : { <<H("echo", 0)>>, <<H("tee", 0), H("term", 0)>>, <<H("thr", 0)>> }]
+
+PS12 == {1, 2}
+SL3 == 0..3
+SL4 == 0..4
+SL11 == 0..11
+\* real-size scope for the shipped handlers: one unit = 4 bytes, so Chunk = 512 units (2048 bytes),
+\* Limit = 2048 units (8192 bytes); a PROXY v2 IPv4 header is 28 bytes = 7 units
+PSReal == {5, 64, 512}
+SLReal == {0, 6, 7, 15, 520, 530}
+
 \* behaviours leave TLC as JSON lines printed at terminal states (see bin/check)
 Emit == pc = "done" =>
           PrintT(<<"BEH", ToJson([cfg |-> cfg, slen |-> slen, endKind |-> endKind,
